@@ -1,5 +1,6 @@
 import OrbitModel.Proofs.Auth
 import OrbitModel.Proofs.AuthExamples
+import OrbitModel.Proofs.GenEqResolve
 /-!
 # C03 — only authorised writers' entries ever enter a database
 
@@ -53,5 +54,11 @@ theorem reload_route_joins_only_this_logs_entries (id : Nat) (fetch : Nat → OM
   intro e he
   unfold ownFetch at he
   simpa using (List.mem_filter.mp he).2
+
+/-- in the Go text of this run an access controller that cannot be resolved ends `createStore` with
+an error: no store is ever handed out under a fallback controller (whose write list would be the
+opener's own identity) -/
+theorem resolve_error_is_checked_tied_to_go_text : Gen.resolveErrChecked = true :=
+  gen_resolve_err_checked
 
 end Orbit.C03
